@@ -23,10 +23,8 @@ ASSUMPTIONS = [
     "tied by R_trace: every returned path / visited set / matrix equals the mirror's",
     "weights are integers or dyadic rationals k/2^j (exact in binary floating point, sums < 2^53), sent to Lean as "
     "scaled integers; astar_grid costs are compared with the exact optimum in Z[sqrt2] within 1e-9*(1+cost)",
-    "[S] theorems still open: floyd_warshall_certifies and bf_rounds_bound (UNBOUNDED => a negative cycle is "
-    "reachable / present).  On every explored input they are decided instead by verified certificates: the "
-    "Floyd-Warshall matrix is compared with the proved Bellman-Ford distances from every source, an UNBOUNDED verdict "
-    "with negCycleCert on the cycle the model extracts from the parent pointers",
+    "all [C] and [S] theorems of DESIGN §4 C11 are proved (no open theorem); the certificate checkers are still "
+    "evaluated on every explored input, on the mirror's and on the implementation's answers",
     "astar: only heuristics that are admissible and consistent on the instance with weight=1 are held to "
     "optimality; other heuristics / weights are run and held to path validity only",
 ]
@@ -883,7 +881,7 @@ def run(ctx, budget):
     cases += [gen_grid(ctx.rng, big and i % 3 == 0) for i in range(nq)]
     run_cases(ctx, cases)
     ctx.cov["sqrt_is_pow_on_grid_range"] = SQRT_IS_POW
-    ctx.cov["missing_theorems"] = ["floyd_warshall_certifies", "bf_rounds_bound"]
+    ctx.cov["missing_theorems"] = []
     h = ctx.cov["histogram"]
     for k in ("cert_checked_model", "cert_checked_impl", "r_trace_agree"):
         ctx.cov[k] = h.get(k, 0)
